@@ -19,11 +19,20 @@ import (
 )
 
 const (
-	verifDir = "/verif"
-	simDir   = "/verif/sim"
-	repoDir  = "/repo"
-	goBin    = "go1.26.8"
+	repoDir = "/repo"
+	goBin   = "go1.26.8"
 )
+
+// verifDir is the tree the driver works in: the current directory when it looks like a /verif
+// checkout (background runs from a snapshot), else /verif.
+var verifDir, simDir = func() (string, string) {
+	if wd, err := os.Getwd(); err == nil {
+		if _, err := os.Stat(filepath.Join(wd, "sim", "go.mod")); err == nil {
+			return wd, filepath.Join(wd, "sim")
+		}
+	}
+	return "/verif", "/verif/sim"
+}()
 
 func trouble(format string, a ...any) {
 	fmt.Fprintf(os.Stderr, "check: TROUBLE: "+format+"\n", a...)
@@ -32,7 +41,7 @@ func trouble(format string, a ...any) {
 
 func goEnv() []string {
 	env := os.Environ()
-	env = append(env, "GOFLAGS=-mod=mod", "GOPROXY=off", "GOSUMDB=off", "GOTOOLCHAIN=local", "GOCACHE="+filepath.Join(verifDir, ".gocache"))
+	env = append(env, "GOFLAGS=-mod=mod", "GOPROXY=off", "GOSUMDB=off", "GOTOOLCHAIN=local", "GOCACHE=/verif/.gocache")
 	return env
 }
 
@@ -546,6 +555,28 @@ func runProperty(prop, tier string, seed uint64, runs int, mutate, scratch strin
 		}
 	}
 
+	// C20 only, thorough tier only: the data-race clause cannot be observed by a serialising simulator.
+	// Auxiliary NON-simulation step: the corpus on real goroutines from cold caches under the race detector.
+	var raceNote map[string]any
+	if prop == "C20" && tier == "thorough" && mutate == "" {
+		n, report := raceStep(scratch, seed)
+		raceNote = map[string]any{"kind": "runtime monitoring under the Go race detector, not simulation; schedule not controlled; no replay file", "processes": n, "races_or_mismatches": 0}
+		if report != "" {
+			dst := filepath.Join(replayDir, "race-report.txt")
+			_ = os.MkdirAll(replayDir, 0o755)
+			_ = os.WriteFile(dst, []byte(report), 0o644)
+			usedReplays[dst] = true
+			raceNote["races_or_mismatches"] = 1
+			if kl := matchKnown(known, prop, "C20.data-race", "race-detector"); kl != nil {
+				fmt.Printf("KNOWN-FINDING: property=%s %s [rule=C20.data-race]\n", prop, kl.text)
+			} else {
+				violations++
+				exit = 1
+				fmt.Printf("VIOLATION property=%s replay=%s\n  rule=C20.data-race (auxiliary non-simulation step: race detector report, not replayable)\n", prop, dst)
+			}
+		}
+	}
+
 	wall := time.Since(start).Seconds()
 	cov := map[string]any{
 		"evaluations":         evaluations,
@@ -572,6 +603,9 @@ func runProperty(prop, tier string, seed uint64, runs int, mutate, scratch strin
 		"workers":             nw,
 		"build_s":             buildS,
 		"exhaustive":          false,
+	}
+	if raceNote != nil {
+		cov["auxiliary_race_step"] = raceNote
 	}
 	if !floorsDone || !exploreDone {
 		cov["note"] = "wall-clock safety cap reached before the planned number of runs; counts are what actually ran"
@@ -652,4 +686,36 @@ func main() {
 	default:
 		trouble("unknown command %q", os.Args[1])
 	}
+}
+
+// raceStep builds the harness with -race against the overlay and runs TestCodecRace in several
+// fresh processes. It returns the number of processes and the first race report / mismatch, if any.
+func raceStep(scratch string, seed uint64) (int, string) {
+	env := append(goEnv(), "CGO_ENABLED=1")
+	bin := filepath.Join(scratch, "harness.race.test")
+	if out, err := run(simDir, env, goBin, "test", "-c", "-race", "-vet=off", "-overlay", filepath.Join(scratch, "ov", "overlay.json"), "-o", bin, "./harness"); err != nil {
+		trouble("building the race-detector binary failed:\n%s", tail(out, 40))
+	}
+	n := 8
+	reports := make([]string, n)
+	var wg sync.WaitGroup
+	for i := 0; i < n; i++ {
+		wg.Add(1)
+		go func(i int) {
+			defer wg.Done()
+			cmd := exec.Command(bin, "-test.run", "^TestCodecRace$", "-test.timeout", "20m")
+			cmd.Env = append(os.Environ(), "KMIPVERIF_RACE=1", fmt.Sprintf("KMIPVERIF_RACE_SEED=%d", seed*1000+uint64(i)), "GOMAXPROCS=8")
+			out, err := cmd.CombinedOutput()
+			if err != nil || strings.Contains(string(out), "DATA RACE") {
+				reports[i] = string(out)
+			}
+		}(i)
+	}
+	wg.Wait()
+	for _, r := range reports {
+		if r != "" {
+			return n, r
+		}
+	}
+	return n, ""
 }
